@@ -20,6 +20,9 @@ structure Wf (n : FSNode) : Prop where
   fanout : ∀ v, n.fanout = some v → v < 2 ^ 64
   secs : ∀ m, n.mtime = some m → -(2 ^ 63 : Int) ≤ m.seconds ∧ m.seconds < 2 ^ 63
   nanos : ∀ m v, n.mtime = some m → m.nanos = some v → v < 2 ^ 32
+  /-- the retained bytes are a sequence of fields none of which pb.Data recognises (`[]` for every node
+  built through the FSNode API) -/
+  unk : ∃ prs, decodeMsgRaw n.unknown = some prs ∧ ∀ p ∈ prs, isKnown p.1 = false
 
 theorem applyFields_append (a b : List Field) (p : Partial) :
     applyFields p (a ++ b) = (applyFields p a).bind (fun q => applyFields q b) := by
@@ -60,8 +63,11 @@ theorem mem_optField {α : Type} {g : α → Field} {o : Option α} {f : Field} 
   | none => simp [optField] at h
   | some a => simp [optField] at h; exact ⟨a, rfl, h⟩
 
-theorem toFields_wf (n : FSNode) (hw : Wf n) (hlen : (encode n).length < 2 ^ 64) :
+theorem toFields_wf (n : FSNode) (hw : Wf n) (hlen' : (encode n).length < 2 ^ 64) :
     ∀ f ∈ toFields n, f.wf := by
+  have hlen : (encodeMsg (toFields n)).length < 2 ^ 64 := by
+    have : (encode n).length = (encodeMsg (toFields n)).length + n.unknown.length := by simp [encode]
+    omega
   apply wf_of_length_lt _ hlen
   · intro f hf
     simp only [toFields, List.mem_append, List.mem_map, List.mem_singleton] at hf
@@ -98,7 +104,7 @@ theorem applyFields_toFields (n : FSNode) (hw : Wf n)
       { type := some n.type, data := n.data, filesize := n.filesize, blocksizes := n.blocksizes,
         hashType := n.hashType, fanout := n.fanout, mode := n.mode,
         mtime := n.mtime.map fun m => ⟨some m.seconds, m.nanos⟩ } := by
-  obtain ⟨type, data, filesize, blocksizes, hashType, fanout, mode, mtime⟩ := n
+  obtain ⟨type, data, filesize, blocksizes, hashType, fanout, mode, mtime, unknown⟩ := n
   have ht : type % 2 ^ 32 = type := Nat.mod_eq_of_lt hw.type
   simp only [toFields, applyFields_append, Partial.empty, applyFields_blocks]
   cases mtime with
@@ -112,18 +118,79 @@ theorem applyFields_toFields (n : FSNode) (hw : Wf n)
     cases data <;> cases filesize <;> cases hashType <;> cases fanout <;> cases mode <;>
       simp [optField, Field.byts, Field.vint, Field.msg, applyFields, ht, h1, h3]
 
-/-- **pb.Data round trip**: `FSNodeFromBytes(GetBytes())` returns the same message -/
+theorem toFields_known (n : FSNode) : ∀ f ∈ toFields n, isKnown f = true := by
+  intro f hf
+  simp only [toFields, List.mem_append, List.mem_map, List.mem_singleton] at hf
+  rcases hf with (((((((rfl | h) | h) | ⟨_, _, rfl⟩) | h) | h) | h) | h)
+  · rfl
+  · obtain ⟨a, _, rfl⟩ := mem_optField h; rfl
+  · obtain ⟨a, _, rfl⟩ := mem_optField h; rfl
+  · rfl
+  · obtain ⟨a, _, rfl⟩ := mem_optField h; rfl
+  · obtain ⟨a, _, rfl⟩ := mem_optField h; rfl
+  · obtain ⟨a, _, rfl⟩ := mem_optField h; rfl
+  · obtain ⟨a, _, rfl⟩ := mem_optField h; rfl
+
+/-- unrecognised fields do not reach any known field -/
+theorem applyFields_unknown (fs : List Field) (p : Partial) (h : ∀ f ∈ fs, isKnown f = false) :
+    applyFields p fs = some p := by
+  induction fs generalizing p with
+  | nil => rfl
+  | cons f fs ih =>
+    have hf := h f (List.mem_cons_self ..)
+    have ht := ih p (fun g hg => h g (List.mem_cons_of_mem _ hg))
+    unfold applyFields
+    split <;> simp_all [isKnown]
+
+theorem unknownOf_append (a b : List (Field × Bytes)) : unknownOf (a ++ b) = unknownOf a ++ unknownOf b := by
+  simp [unknownOf, List.filter_append, List.flatMap_append]
+
+theorem unknownOf_known (fs : List Field) (h : ∀ f ∈ fs, isKnown f = true) :
+    unknownOf (fs.map fun f => (f, f.encode)) = [] := by
+  induction fs with
+  | nil => rfl
+  | cons f fs ih =>
+    have := ih (fun g hg => h g (List.mem_cons_of_mem _ hg))
+    simp only [unknownOf] at this ⊢
+    simp [List.filter_cons, h f (List.mem_cons_self ..), this]
+
+theorem unknownOf_all (prs : List (Field × Bytes)) (h : ∀ p ∈ prs, isKnown p.1 = false) :
+    unknownOf prs = prs.flatMap (·.2) := by
+  unfold unknownOf
+  congr 1
+  rw [List.filter_eq_self]
+  intro p hp
+  simp [h p hp]
+
+/-- **pb.Data round trip**: `FSNodeFromBytes(GetBytes())` returns the same message, retained unknown
+fields included -/
 theorem decode_encode (n : FSNode) (hw : Wf n) (hlen : (encode n).length < 2 ^ 64) :
     decode (encode n) = some n := by
   have hwf := toFields_wf n hw hlen
   have hm : ∀ m, n.mtime = some m → decodeMsg (encodeMsg (mtimeFields m)) = some (mtimeFields m) :=
     fun m hmm => decodeMsg_encodeMsg _ (mtimeFields_wf m (fun v hv => hw.nanos m v hmm hv))
+  obtain ⟨prs, hprs, hunk⟩ := hw.unk
+  have hraw := decodeMsgRaw_encode_append (toFields n) hwf n.unknown prs hprs
+  have hconcat := decodeMsgRaw_concat hprs
   unfold decode encode
-  rw [decodeMsg_encodeMsg _ hwf]
-  simp only [applyFields_toFields n hw hm]
-  obtain ⟨type, data, filesize, blocksizes, hashType, fanout, mode, mtime⟩ := n
+  rw [hraw]
+  simp only [List.map_append, List.map_map]
+  have hfst : (toFields n).map ((fun p : Field × Bytes => p.1) ∘ fun f => (f, f.encode)) = toFields n := by
+    simp [Function.comp_def]
+  rw [hfst, applyFields_append, applyFields_toFields n hw hm]
+  simp only [Option.bind_some]
+  rw [applyFields_unknown _ _ (by
+    intro f hf
+    obtain ⟨p, hp, rfl⟩ := List.mem_map.1 hf
+    exact hunk p hp)]
+  simp only [unknownOf_append, unknownOf_known _ (toFields_known n), List.nil_append,
+    unknownOf_all prs hunk, hconcat]
+  obtain ⟨type, data, filesize, blocksizes, hashType, fanout, mode, mtime, unknown⟩ := n
   cases mtime with
   | none => simp [finish]
   | some m => obtain ⟨s, ns⟩ := m; simp [finish]
+
+theorem unk_nil : ∃ prs, decodeMsgRaw ([] : Bytes) = some prs ∧ ∀ p ∈ prs, isKnown p.1 = false :=
+  ⟨[], decodeMsgRaw_nil, by simp⟩
 
 end C18
